@@ -147,3 +147,42 @@ def obligations():
                       defines=dict(VSTD_CAP_DEFAULT=8),
                       note='valence guard of the tetrahedral %s override: lists of every length 0..6 (face valences 0..5 arbitrary); the general add_* is a recording stub, so the proof shows exactly when and with what it is called' % nm))
     return obs
+
+# ---------------------------------------------------------------------------------------------------------------
+# C15 part 2: collapse_edge on the two-tetrahedra shape, halfedge symbolic, per (deferred, fast) mode
+COLLAPSE_HELP = HELP + '''
+static void tuple_ids(const TK *m, int c, int *out) { int hf = CHF(m, c, 0); out[0] = m->ghost_v.data[spec_hf_vertex(m, hf, 0)]; out[1] = m->ghost_v.data[spec_hf_vertex(m, hf, 1)]; out[2] = m->ghost_v.data[spec_hf_vertex(m, hf, 2)]; int ap = spec_apex(m, c, hf); out[3] = ap >= 0 ? m->ghost_v.data[ap] : -1; }
+'''
+def collapse_obligations():
+    obs = []
+    for dfr in (0, 1):
+        for fast in (0, 1):
+            n = 'collapse_edge.deferred%d_fast%d' % (dfr, fast)
+            pre = '  TK m; { static const int W0[] = {SHAPE_W}; int aa[4]; unwitness(W0, &m, aa); }\n  m.deferred_deletion_ = %d; m.fast_deletion_ = %d;\n  for (int i = 0; i < 5; i++) m.ghost_v.data[i] = 100 + i;' % (dfr, fast)
+            args = '  int he = ARG(0);\n  __CPROVER_assume(%s);' % rng('he', '2 * ' + NE)
+            call = '  struct HEH hh; hh.idx_ = he; ret = %scollapse_edge(%s, hh).idx_;' % (P, M)
+            post = ['  int a = HEFROM(&o, he), b = HETO(&o, he); int ida = 100 + a, idb = 100 + b;',
+                    A('ovm_exc == 0 && wf(&m)', 'mesh_stays_well_formed', n),
+                    A('m.deferred_deletion_ == %d && m.fast_deletion_ == %d' % (dfr, fast), 'deletion_modes_restored', n),
+                    A('ret >= 0 && (unsigned long)ret < m.n_vertices_ && !VDEL(&m, ret) && m.ghost_v.data[ret] == idb', 'returned_handle_designates_b_after_the_collapse', n),
+                    '  _Bool a_gone = 1; for (int v = 0; v < 5; v++) if ((unsigned long)v < m.n_vertices_ && !VDEL(&m, v) && m.ghost_v.data[v] == ida) a_gone = 0;',
+                    A('a_gone', 'a_is_no_longer_a_live_vertex', n),
+                    '  int nexp = 0, nlive = 0; _Bool all_found = 1;',
+                    '  for (int c = 0; c < 2; c++) if ((unsigned long)c < o.cells_.size && !CDEL(&o, c) && !(spec_vertex_in_cell(&o, c, a) && spec_vertex_in_cell(&o, c, b))) {',
+                    '    int e[4]; tuple_ids(&o, c, e); for (int i = 0; i < 4; i++) if (e[i] == ida) e[i] = idb; nexp++;',
+                    '    _Bool found = 0; for (int d = 0; d < 4; d++) if ((unsigned long)d < m.cells_.size && !CDEL(&m, d)) { int t[4]; tuple_ids(&m, d, t); if (even_perm4(e, t)) found = 1; }',
+                    '    if (!found) all_found = 0; }',
+                    '  for (int d = 0; d < 4; d++) if ((unsigned long)d < m.cells_.size && !CDEL(&m, d)) nlive++;',
+                    A('nlive == nexp && all_found', 'live_cells_are_exactly_the_former_cells_without_both_endpoints_with_a_replaced_by_b_and_orientation_preserved', n),
+                    A('%s' % ('m.n_deleted_vertices_ + m.n_deleted_edges_ + m.n_deleted_faces_ + m.n_deleted_cells_ == 0' if not dfr else '1'), 'nothing_left_pending_when_deferred_deletion_was_off', n)]
+            mh = MeshHarness(args=args, call=call, post='\n'.join(post), op='none', pre=pre, snap='  witness(&o, he, 0, 0, 0);\n  COVER(1, "reachable");')
+            d = dict(DEFS); d.update(LC=4, PC=4, LE=12, PE=12, LF=10, PF=10, VSTD_CAP_DEFAULT=26)
+            obs.append(Ob(id='C15.' + n, props=['C15', 'C03'], quick_for=[], tu='tethex', cfg='tet', tier='B', roots=[TET + '::collapse_edge'] + ROOTS_BUILD, harness=mh,
+                          includes=['wf.h', 'view.h', 'add_spec.h', 'query_spec.h', 'circ_spec.h', 'shapes.h'], copies=[TK], defines=d, unwind=30, covers=1, timeout=6000, mem_gb=24,
+                          inits={'tk_init': TK}, adaptive_unwind=True, unwind_start=10, prebuild_shape=SHAPES['twotets'], preamble_after=COLLAPSE_HELP,
+                          bounds=dict(shape='twotets', halfedge='all halfedges of the shape (symbolic)', deferred=dfr, fast=fast),
+                          note='collapse_edge on two tetrahedra glued on a face (every edge satisfies the link condition), any halfedge, deferred deletion %s, fast deletion %s: resulting cells, surviving handle (tracked by a ghost vertex property), well-formedness' % ('on' if dfr else 'off', 'on' if fast else 'off')))
+    return obs
+_base_tet = obligations
+def obligations():
+    return _base_tet() + collapse_obligations()
